@@ -3,6 +3,7 @@ package engine
 import (
 	"fmt"
 	"sort"
+	"time"
 
 	"govc/smt"
 )
@@ -55,10 +56,11 @@ const (
 )
 
 type memCtx struct {
-	c      *smt.Ctx
-	nextID int
-	memo   map[string]*smt.Term
-	reads  int
+	c        *smt.Ctx
+	nextID   int
+	memo     map[string]*smt.Term
+	reads    int
+	deadline time.Time
 }
 
 const freshBaseStart = uint64(1) << 62
@@ -200,6 +202,9 @@ func (m *memCtx) readC(n *MemNode, a0, a1 *smt.Term, ctx []*smt.Term) *smt.Term 
 		return t
 	}
 	m.reads++
+	if m.reads%4096 == 0 && time.Now().After(m.deadline) {
+		panic(unsupported("generation time budget exceeded (memory reads)"))
+	}
 	var r *smt.Term
 	switch n.kind {
 	case mInit:
